@@ -318,6 +318,17 @@ impl Walrus {
                         let mut info = info_arc.write().map_err(|_| {
                             io::Error::new(io::ErrorKind::Other, "col info write lock poisoned")
                         })?;
+                        // The column lock was released while the entry was read. If another
+                        // consumer committed this tail position (or a later one) meanwhile,
+                        // returning the entry would deliver it twice: start over from the
+                        // current position instead.
+                        if checkpoint
+                            && info.tail_block_id == active_block.id
+                            && info.tail_offset > tail_off
+                        {
+                            drop(info);
+                            continue;
+                        }
                         let mut maybe_persist = None;
                         if checkpoint {
                             info.tail_block_id = active_block.id;
